@@ -684,8 +684,8 @@ func main() {
 				map[string]any{"case": c, "leaf_subject": leaf.Cert.Subject.String()})
 		}
 	}, r.PanicViolation("verifier.Verify"))
-	sameKeyOtherSubject(r)
-	dottedDecimalIdentities(r)
+	guarded(r, "certificates sharing a key", func() { sameKeyOtherSubject(r) })
+	guarded(r, "dotted-decimal identities", func() { dottedDecimalIdentities(r) })
 	r.RequireAtLeast("authenticity-pass", int64(n/4))
 	r.RequireAtLeast("authenticity-fail", int64(n/4))
 	r.Extra["completeness_note"] = "events completeness:* count cases where the library is stricter than the statement requires; they are reported, not judged"
@@ -787,4 +787,14 @@ func dottedDecimalIdentities(r *lib.Run) {
 			}
 		}
 	}
+}
+
+// guarded runs a phase; a panic of the library inside it is a violation like any other, not the end of the monitor.
+func guarded(r *lib.Run, where string, f func()) {
+	defer func() {
+		if p := recover(); p != nil {
+			r.Violation(map[string]string{"kind": "panic", "where": where}, fmt.Sprintf("%s: the library panicked: %v", where, p), nil)
+		}
+	}()
+	f()
 }
